@@ -29,7 +29,7 @@ func c22Cfg() *txCfg {
 	add("switch", 6)
 	add("doltcommit", 6)
 	return &txCfg{id: "C22", sessMin: 2, sessMax: 4, tablesMax: 2, branchMin: 2, branchMax: 3, vcolMin: 2, vcolMax: 3,
-		pkMax: 6, stepsMin: 15, stepsMax: 45, ops: ops, crossBranchWrites: true, acOnPercent: 30}
+		pkMax: 6, stepsMin: 15, stepsMax: 45, ops: ops, kindWeights: [4]int{6, 2, 8, 4}, pkPredPercent: 60, crossBranchWrites: true, acOnPercent: 30}
 }
 
 func TestVerif_C22(t *testing.T) {
